@@ -2,6 +2,14 @@
 from .suites import pure, diff, walk, sync, proto
 
 PROPS = {
+    "C03": {
+        "suites": [proto.Hostile, pure.ValidatorSuite],
+        "assumptions": ["fsutil runs in a chroot'ed child process; everything in the jail outside dest is snapshotted before/after (mode, owner, inode, times, bytes, xattrs)"],
+    },
+    "C07": {
+        "suites": [proto.RecvProto],
+        "assumptions": ["payload bytes on disk are compared by content hash with what the reference sender sent"],
+    },
     "C06": {
         "suites": [proto.SendProto],
         "assumptions": ["payload bytes are compared by the independent reference receiver in the harness; the Lean acceptor replays lengths/order of the boundary events"],
